@@ -4,6 +4,7 @@ import Driver.BufDrv
 import Driver.RunDrv
 import Driver.LoopDrv
 import Driver.ParseDrv
+import Driver.TopoDrv
 open Pushr
 
 def handleLine (line : String) : String :=
@@ -11,6 +12,7 @@ def handleLine (line : String) : String :=
   | some [.list (.atom kind :: rest)] =>
     match kind with
     | "stackop" => StackDrv.handle rest
+    | "topo" => TopoDrv.handle rest
     | "parse" => ParseDrv.handleParse rest
     | "roundtrip" => ParseDrv.handleRoundtrip rest
     | "loop" => LoopDrv.handle rest
